@@ -42,6 +42,10 @@ type c19Case struct {
 	// ViaYAML: the session is written as a session file (the documented fields of specs/tests/*.test.yaml) and
 	// loaded the way cmd/mexpect loads it, instead of being built as Go values
 	ViaYAML bool `json:"via_yaml,omitempty"`
+	// LateMs > 0 (with SplitAt): the rest of the stream arrives LateMs after the first part - long after every
+	// step of the session has timed out (each step's timeout is a tenth of it): for the verdict those lines
+	// never arrive
+	LateMs int `json:"late_ms,omitempty"`
 }
 
 var c19Msgs = map[string]string{"A": `{"a":1}`, "B": `{"b":1}`, "C": `{"c":1}`, "noise": `this is not json`,
@@ -169,6 +173,8 @@ func c19Session(cs c19Case, timeout time.Duration) *expect.Session {
 	return s
 }
 
+const c19Horizon = 45 * time.Second
+
 func c19Run(dir string, cs c19Case, timeout time.Duration) (passed bool, errText string, panicked string) {
 	var lines []string
 	for _, sym := range cs.Stream {
@@ -180,14 +186,21 @@ func c19Run(dir string, cs c19Case, timeout time.Duration) (passed bool, errText
 		f2 := filepath.Join(dir, "stream2.txt")
 		os.WriteFile(f, []byte(strings.Join(lines[:cs.SplitAt], "\n")+"\n"), 0o644)
 		os.WriteFile(f2, []byte(strings.Join(lines[cs.SplitAt:], "\n")+"\n"), 0o644)
-		script = "cat " + f + "; sleep 0.05; cat " + f2 + "; cat > /dev/null"
+		pause := "0.05"
+		if cs.LateMs > 0 {
+			pause = fmt.Sprintf("%d.%03d", cs.LateMs/1000, cs.LateMs%1000)
+		}
+		script = "cat " + f + "; sleep " + pause + "; cat " + f2 + "; cat > /dev/null"
 	} else {
 		os.WriteFile(f, []byte(strings.Join(lines, "\n")+"\n"), 0o644)
 	}
 	s := c19Session(cs, timeout)
 	var err error
 	if p, pm, where := vh.Trap(func() {
-		err = s.Run(context.Background(), "", "sh", "-c", script)
+		// the horizon only bounds a tool that has stopped enforcing its own timeouts
+		ctx, cancel := context.WithTimeout(context.Background(), c19Horizon)
+		defer cancel()
+		err = s.Run(ctx, "", "sh", "-c", script)
 	}); p {
 		return false, "", pm + " @" + where
 	}
@@ -227,9 +240,21 @@ func C19(c *vh.Ctx) {
 		if want && refPassMode(cs, true) {
 			timeout = 20 * time.Second // never fires when the tool passes
 		}
+		if cs.LateMs > 0 {
+			timeout = time.Duration(cs.LateMs/10) * time.Millisecond
+			late := cs
+			late.Stream = cs.Stream[:cs.SplitAt] // what arrives after every step has timed out does not count
+			want = refPass(late)
+		}
+		began := time.Now()
 		passed, errText, panicked := c19Run(dir, cs, timeout)
 		if panicked != "" {
 			c.Violation("C19/panic", panicked, cs)
+			return
+		}
+		if took := time.Since(began); !want && timeout <= time.Second && took > 30*time.Second {
+			// "otherwise - including when an expected message never arrives before the timeout - it fails"
+			c.Violation("C19/no-verdict-at-the-timeout", fmt.Sprintf("every step of the session has a timeout of %v and an expected message never arrives in time, but the tool gave its verdict (passed=%v) only after %v", timeout, passed, took.Round(time.Second)), cs)
 			return
 		}
 		if want {
@@ -265,7 +290,7 @@ func C19(c *vh.Ctx) {
 	maxSet, maxStream := c.Pick(2, 3), c.Pick(3, 4)
 	c.Bound("output_set_max", maxSet)
 	c.Bound("stream_max", maxStream)
-	c.Rule("sessions of one step with every output set (multiset) of up to the bound over {pattern A, pattern B} x {expected, inverted} x guard {none, accept, reject}, a second family with a pattern that matches one message in several ways (an array variable) with guards that accept all / one of the ways, a third family with emitted lines of 6 and 9 kilobytes (longer than a default read buffer; the whole stream stays below the pipe buffer, because the tool does not drain the output of a subprocess it has stopped listening to), two-step sessions over a reduced set list, also with the stream arriving in two writes; every stream up to the bound over {A, B, C, a non-JSON noise line} including repetitions; the sessions with short streams also written as session files (documented fields) and loaded as cmd/mexpect loads them; the tool drives a scripted subprocess that prints the stream; oracle: the tool may pass only if the reference pass conditions hold (most permissive consumption). Cases the reference fails run with a short timeout (which can only turn pass into fail). non-trivial = reference says pass.")
+	c.Rule("sessions of one step with every output set (multiset) of up to the bound over {pattern A, pattern B} x {expected, inverted} x guard {none, accept, reject}, a second family with a pattern that matches one message in several ways (an array variable) with guards that accept all / one of the ways, a third family with emitted lines of 6 and 9 kilobytes (longer than a default read buffer; the whole stream stays below the pipe buffer, because the tool does not drain the output of a subprocess it has stopped listening to), two-step sessions over a reduced set list, also with the stream arriving in two writes, and with its second part arriving three seconds late while every step's timeout is 0.3 s (for the verdict those lines never arrive; a tool that gives no verdict for 30 s although its timeouts are below a second is reported too); every stream up to the bound over {A, B, C, a non-JSON noise line} including repetitions; the sessions with short streams also written as session files (documented fields) and loaded as cmd/mexpect loads them; the tool drives a scripted subprocess that prints the stream; oracle: the tool may pass only if the reference pass conditions hold (most permissive consumption). Cases the reference fails run with a short timeout (which can only turn pass into fail). non-trivial = reference says pass.")
 	kinds := []expOut{}
 	for _, p := range []string{"A", "B"} {
 		for _, inv := range []bool{false, true} {
@@ -320,6 +345,34 @@ func C19(c *vh.Ctx) {
 				// the same session as a session file
 				cs.ViaYAML = true
 				one(cs)
+			}
+		}
+	}
+	// messages that arrive long after the step that waits for them has timed out: two-step sessions (and one-step
+	// ones), the stream's second part three seconds late, every step's timeout 0.3 s
+	{
+		lateSteps := [][]expOut{{{Pat: "A"}}, {{Pat: "B"}}, {{Pat: "A", Inverted: true}}, {{Pat: "A"}, {Pat: "B"}}}
+		firsts := [][]string{{}, {"A"}, {"B"}, {"A", "B"}}
+		seconds := [][]string{{"A"}, {"B"}, {"A", "B"}}
+		for _, s1 := range lateSteps[:2] {
+			for _, s2 := range append([][]expOut{nil}, lateSteps...) {
+				for _, f1 := range firsts {
+					for _, f2 := range seconds {
+						idx++
+						if !c.Mine(idx) || c.Expired() {
+							continue
+						}
+						steps := [][]expOut{s1}
+						if s2 != nil {
+							steps = append(steps, s2)
+						}
+						if len(f1) == 0 {
+							continue // SplitAt 0 means "no split"
+						}
+						one(c19Case{Steps: steps, Stream: append(append([]string{}, f1...), f2...), SplitAt: len(f1), LateMs: 3000})
+						c.Count("late_arrival_cases", 1)
+					}
+				}
 			}
 		}
 	}
